@@ -205,7 +205,7 @@ class IsotensionCriteria(BaseCriteria):
         self.strain_tensor = 0.5 * (
             np.linalg.inv(old_cell.T)
             @ current_cell.T
-            @ old_cell
+            @ current_cell
             @ np.linalg.inv(old_cell)
             - np.eye(3)
         )
